@@ -101,6 +101,7 @@ func (a *application) start(mode gen.ApplicationMode, options gen.ApplicationOpt
 			return err
 		}
 
+		lib.VerifPoint("app.start.check", a)
 		if atomic.LoadInt32(&a.state) != int32(gen.ApplicationStateRunning) {
 			// the application is being stopped already (a stop request, or the mode
 			// rule fired on a terminated member): whoever switched the state may have
@@ -116,7 +117,9 @@ func (a *application) start(mode gen.ApplicationMode, options gen.ApplicationOpt
 
 	defer func() {
 		// start is through: if every member has terminated meanwhile the run ends here
+		lib.VerifPoint("app.start.done", a)
 		atomic.StoreInt32(&a.starting, 0)
+		lib.VerifPoint("app.start.len", a)
 		if a.group.Len() == 0 {
 			a.finalise()
 		}
@@ -250,6 +253,7 @@ func (a *application) terminate(pid gen.PID, reason error) {
 		// do nothing
 	}
 
+	lib.VerifPoint("app.term.starting", a)
 	if atomic.LoadInt32(&a.starting) == 1 {
 		// the members are still being started: start ends the run when it is through.
 		// (Checked before the group: once the flag is down the group does not grow)
